@@ -179,7 +179,7 @@ func NewDevTty() (Tty, error) {
 func NewDevTtyFromDev(dev string) (Tty, error) {
 	tty := &devTty{
 		dev: dev,
-		sig: make(chan os.Signal),
+		sig: make(chan os.Signal, 1),
 	}
 	var err error
 	if tty.of, err = os.OpenFile(dev, os.O_RDWR, 0); err != nil {
